@@ -1,6 +1,6 @@
 #!/bin/sh
 # bin/thoroughcopy.sh <props...>: run the thorough tier of the given properties in an isolated copy, log wall time and result
-E=/tmp/ev/T
+E=/tmp/ev/T${TAG:-}
 rm -rf $E; mkdir -p $E
 rsync -a --exclude work --exclude replays --exclude .git /verif/ $E/verif/
 git clone -q /repo $E/repo
